@@ -53,8 +53,8 @@ fn internal_htlc_satisfies_config(
 			.and_then(|prop_fee: u64| -> (o: Option<u64>)
         ensures o == (if prop_fee as int / 1000000 + config.forwarding_fee_base_msat as int <= u64::MAX { Some((prop_fee as int / 1000000 + config.forwarding_fee_base_msat as int) as u64) } else { None::<u64> })
         { (prop_fee / 1000000).checked_add(config.forwarding_fee_base_msat as u64) });
-		if fee.is_none() || htlc.amount_msat < fee.unwrap() ||
-			(htlc.amount_msat - fee.unwrap()) < amt_to_forward {
+		if fee.is_some() && (htlc.amount_msat < fee.unwrap() ||
+			(htlc.amount_msat - fee.unwrap()) < amt_to_forward) {
 			return Err(LocalHTLCFailureReason::FeeInsufficient);
 		}
 		if (htlc.cltv_expiry as u64) < outgoing_cltv_value as u64 + config.cltv_expiry_delta as u64 {
